@@ -132,7 +132,7 @@ func genDoc(t *rapid.T, depth int, canary string) *model.Value {
 		for i := rapid.IntRange(0, 4).Draw(t, "mn"); i > 0; i-- {
 			var key string
 			if rapid.Bool().Draw(t, "plainkey") {
-				key = rapid.SampledFrom([]string{"a", "b", "key", "A_1", "1x", "x-y", "a.b", "a b", "é", "_", "", "0"}).Draw(t, "pk")
+				key = rapid.SampledFrom([]string{"a", "b", "key", "A_1", "1x", "x-y", "a.b", "a b", "é", "_", "", "0", "<<", "<<", "*", "a*", "?", "~", "null", "true", "+@a", "+content"}).Draw(t, "pk")
 			} else {
 				key = clean(genString(t, canary))
 			}
